@@ -3,6 +3,7 @@
 // Mode 1 (diffed bit-for-bit against lean/CelerVerif/Model/SafetyDriver.lean):
 //   safety <tag> <data…> | x y z     detail::CalcSafetyDistance{pos}(surf) on the real surface class
 //   flag   <tag> <data…> |           S::simple_safety()
+//   findmax m x y z / <level> / …    same through find_safety(max_step = m)
 //   find x y z / <level> / …         a real OrangeParams is built from the op line (one universe per
 //                                    level, UnitInserter / RectArrayInserter), a real
 //                                    OrangeTrackView is initialised at the point and
@@ -10,11 +11,14 @@
 // Mode 2 (impl-side oracle only; the model driver answers bad-op):
 //   isect  <tag> <data…> | x y z u v w   calc_intersections (off surface): nearest distance
 //   geo <path.org.json>                  load a real geometry (OrangeParams(filename))
-//   gscan x y z n seed                   find_safety at the point, then min over n directions
+//   gscan x y z n seed [max]             find_safety() at the point (and find_safety(max), the
+//                                        overload Urban MSC calls), then min over n directions
 //                                        (splitmix64(seed) uniform on the sphere) of
-//                                        find_next_step(); prints
-//                                        `vol=<id> safety=<hex> mindist=<hex> dir=<hex hex hex>`
-//   gfind x y z / <level> / … | n seed   same scan on the synthetic geometry of `find`
+//                                        find_next_step(); prints `vol=<id> safety=<hex>
+//                                        [safetymax=<hex> level=<l>] mindist=<hex> dir=<hex hex hex>`
+//   gnear x y z u v w eps n seed max     same at the point `eps` before the next boundary of the
+//                                        ray (x y z; u v w): near a wall known to some level
+//   gfind x y z / <level> / … | n seed [max]   same scan on the synthetic geometry of `find`
 #include <cmath>
 #include <cstdlib>
 #include <map>
@@ -338,7 +342,7 @@ Real3 random_dir(SplitMix& rng, std::size_t k)
     return d;
 }
 
-string scan(Geo& g, Real3 const& pos, std::size_t n, std::uint64_t seed)
+string scan(Geo& g, Real3 const& pos, std::size_t n, std::uint64_t seed, double const* max_step)
 {
     auto geo = g.view();
     geo = GeoTrackInitializer{pos, Real3{1, 0, 0}};
@@ -348,6 +352,15 @@ string scan(Geo& g, Real3 const& pos, std::size_t n, std::uint64_t seed)
         return "outside";
     auto vol = geo.volume_id();
     double safety = geo.find_safety();
+    string smax;
+    if (max_step)
+    {
+        // the overload the consumers call, on a freshly initialised state
+        auto gm = g.view();
+        gm = GeoTrackInitializer{pos, Real3{1, 0, 0}};
+        smax = " safetymax=" + vh::hexd(gm.find_safety(*max_step)) + " level="
+               + std::to_string(gm.level().unchecked_get());
+    }
     SplitMix rng{seed};
     double best = std::numeric_limits<double>::infinity();
     Real3 bestdir{0, 0, 0};
@@ -365,29 +378,63 @@ string scan(Geo& g, Real3 const& pos, std::size_t n, std::uint64_t seed)
             bestdir = d;
         }
     }
-    return "vol=" + std::to_string(vol.unchecked_get()) + " safety=" + vh::hexd(safety)
+    return "vol=" + std::to_string(vol.unchecked_get()) + " safety=" + vh::hexd(safety) + smax
            + " mindist=" + vh::hexd(best) + " dir=" + vh::hexd(bestdir[0]) + " "
            + vh::hexd(bestdir[1]) + " " + vh::hexd(bestdir[2]);
 }
 
-//---------------------------------------------------------------------------//
-string op_find(vecs const& w, bool do_scan)
+// a point `eps` before the boundary that the ray (pos, dir) hits next: near a wall of the current
+// volume at SOME level (e.g. the outer wall of a daughter, which only the parent level knows)
+bool near_wall(Geo& g, Real3 const& pos, Real3 const& dir, double eps, Real3* out)
 {
-    // find x y z / level / level …  [| n seed]
+    auto t = g.view();
+    t = GeoTrackInitializer{pos, dir};
+    if (t.failed() || t.is_outside())
+        return false;
+    auto p = t.find_next_step();
+    if (!(p.distance < std::numeric_limits<double>::infinity()) || !(p.distance > 2 * eps))
+        return false;
+    for (int i = 0; i < 3; ++i)
+        (*out)[i] = pos[i] + (p.distance - eps) * dir[i];
+    return true;
+}
+
+//---------------------------------------------------------------------------//
+string op_find(vecs const& w, bool do_scan, bool with_max)
+{
+    // find x y z / level / level …            findmax m x y z / level / …
+    // gfind x y z / level / … | n seed [max]
     std::size_t e = w.size();
     std::size_t nscan = 0, seed = 0;
+    double scan_max = 0;
+    bool have_scan_max = false;
     if (do_scan)
     {
-        if (w.size() < 8 || w[w.size() - 3] != "|" || !parse_nat(w[w.size() - 2], &nscan)
-            || !parse_nat(w[w.size() - 1], &seed))
+        std::size_t bar = w.size();
+        while (bar > 0 && w[bar - 1] != "|")
+            --bar;
+        // w[bar-1] == "|", then n seed [max]
+        std::size_t nt = w.size() - bar;
+        if (bar < 6 || (nt != 2 && nt != 3) || !parse_nat(w[bar], &nscan)
+            || !parse_nat(w[bar + 1], &seed))
             return "bad-op";
-        e = w.size() - 3;
+        if (nt == 3)
+        {
+            vecd m;
+            if (!parse_all(w, bar + 2, bar + 3, &m))
+                return "bad-op";
+            scan_max = m[0];
+            have_scan_max = true;
+        }
+        e = bar - 1;
     }
-    vecd p;
-    if (e < 6 || !parse_all(w, 1, 4, &p))
+    std::size_t first = with_max ? 2 : 1;
+    vecd p, mx;
+    if (e < first + 5 || !parse_all(w, first, first + 3, &p)
+        || (with_max && !parse_all(w, 1, 2, &mx)))
         return "bad-op";
     std::vector<LevelSpec> levels;
-    if (!parse_levels(w, 4, e, &levels))
+    if (!parse_levels(w, first + 3, e, &levels))
         return "bad-op";
     Geo g;
     try
@@ -401,7 +448,7 @@ string op_find(vecs const& w, bool do_scan)
     }
     Real3 pos{p[0], p[1], p[2]};
     if (do_scan)
-        return scan(g, pos, nscan, seed);
+        return scan(g, pos, nscan, seed, have_scan_max ? &scan_max : nullptr);
 
     auto geo = g.view();
     geo = GeoTrackInitializer{pos, Real3{1, 0, 0}};
@@ -427,7 +474,7 @@ string op_find(vecs const& w, bool do_scan)
         // embedded_universe (0x8) is set by process_daughter, not part of the safety model
         fl += std::to_string(vr.flags & 0x7) + "," + (su.simple_safety ? "1" : "0");
     }
-    double s = geo.find_safety();
+    double s = with_max ? geo.find_safety(mx[0]) : geo.find_safety();
     return "flags=" + fl + " safety=" + vh::hexd(s);
 }
 
@@ -496,11 +543,15 @@ int main()
         }
         else if (op == "find")
         {
-            std::cout << op_find(w, false) << "\n";
+            std::cout << op_find(w, false, false) << "\n";
+        }
+        else if (op == "findmax")
+        {
+            std::cout << op_find(w, false, true) << "\n";
         }
         else if (op == "gfind")
         {
-            std::cout << op_find(w, true) << "\n";
+            std::cout << op_find(w, true, false) << "\n";
         }
         else if (op == "geo" && w.size() == 2)
         {
@@ -522,17 +573,39 @@ int main()
                 std::cout << "load-error\n";
             }
         }
-        else if (op == "gscan" && w.size() == 6)
+        else if (op == "gscan" && (w.size() == 6 || w.size() == 7))
         {
-            vecd p;
+            // gscan x y z n seed [max]
+            vecd p, m;
             std::size_t n, seed;
             if (!loaded.params || !parse_all(w, 1, 4, &p) || !parse_nat(w[4], &n)
-                || !parse_nat(w[5], &seed))
+                || !parse_nat(w[5], &seed) || (w.size() == 7 && !parse_all(w, 6, 7, &m)))
             {
                 std::cout << "bad-op\n";
                 continue;
             }
-            std::cout << scan(loaded, Real3{p[0], p[1], p[2]}, n, seed) << "\n";
+            std::cout << scan(loaded, Real3{p[0], p[1], p[2]}, n, seed, m.empty() ? nullptr : &m[0])
+                      << "\n";
+        }
+        else if (op == "gnear" && w.size() == 11)
+        {
+            // gnear x y z u v w eps n seed max : scan at the point `eps` before the next boundary
+            vecd p, m;
+            std::size_t n, seed;
+            if (!loaded.params || !parse_all(w, 1, 8, &p) || !parse_nat(w[8], &n)
+                || !parse_nat(w[9], &seed) || !parse_all(w, 10, 11, &m))
+            {
+                std::cout << "bad-op\n";
+                continue;
+            }
+            Real3 q;
+            if (!near_wall(loaded, Real3{p[0], p[1], p[2]}, Real3{p[3], p[4], p[5]}, p[6], &q))
+            {
+                std::cout << "no-wall\n";
+                continue;
+            }
+            std::cout << scan(loaded, q, n, seed, &m[0]) << " pos=" << vh::hexd(q[0]) << ","
+                      << vh::hexd(q[1]) << "," << vh::hexd(q[2]) << "\n";
         }
         else
         {
